@@ -247,6 +247,9 @@ def faults_of(base, rng, exhaustive_types=True):
             # an identical copy before or after the table: the later one repeats the type -- also when the earlier table of that
             # type has no data rows (the shape of finding F11, repaired: see corpus/C12/f11-repeated-table-after-empty.json)
             add("repeated-table", f"{t}@{pos}", [("insrows", pos, block)], first_empty=not st["data"])
+            # the same, the copy's keyword spelled in another letter case (keywords are matched case-insensitively)
+            other = [[str(block[0][0]).swapcase()] + list(block[0][1:])] + block[1:]
+            add("repeated-table", f"{t}@{pos}:other-case", [("insrows", pos, other)], first_empty=not st["data"])
             if st["data"]:
                 # an empty copy: after the table it repeats a non-empty table; before it, the earlier table is the empty one
                 add("repeated-table", f"{t}@{pos}:empty-copy", [("insrows", pos, empty_block)], first_empty=pos <= st["kw"])
